@@ -92,6 +92,7 @@ def inject(scratch, units, extra_tests=None):
             src = src[:ls] + lines + src[ls:]
             write(p, src)
             prov.append({'kind': 'contract-in-place', 'file': f, 'fn': c['fn'], 'attrs': c['attrs']})
+        body = add_direct_twins(body)
         tests = ''
         if extra_tests and u.name in extra_tests:
             tests = '\n'.join(extra_tests[u.name])
@@ -108,6 +109,29 @@ def inject(scratch, units, extra_tests=None):
         p = os.path.join(scratch, 'src', 'lib.rs')
         write(p, read(p) + '\n#[cfg(kani)] pub(crate) mod verif_support;\n')
     return prov
+
+
+def add_direct_twins(body):
+    """For every harness that stubs a callee (`#[kani::stub(..)]`), append a twin `<name>__direct`
+    without the stub attributes.  The twin is never part of a proof; it is run only after the
+    modular harness failed, to obtain a counterexample that is meaningful on the real code
+    (in a native replay no stub is active, so the modular harness's own counterexample may
+    depend on a callee value the real callee never returns)."""
+    out = []
+    for m in re.finditer(r'((?:[ \t]*#\[kani::[^\n]*\]\n)+)([ \t]*fn\s+(\w+)\s*\(\s*\)\s*\{)', body):
+        attrs, head, name = m.group(1), m.group(2), m.group(3)
+        if 'kani::stub(' not in attrs or 'kani::proof' not in attrs:
+            continue
+        fake = rustscan.find_fn(body, name)
+        kept = ''.join(l + '\n' for l in attrs.split('\n') if l.strip() and 'kani::stub(' not in l)
+        out.append(kept + body[fake.sig_start - (len(head) - len(head.lstrip())):fake.body_close + 1].replace(f'fn {name}', f'fn {name}__direct', 1))
+    return body + '\n    // ---- generated non-modular twins (counterexample search only) ----\n' + '\n'.join(out) if out else body
+
+
+def has_twin(u, hname):
+    it = rustscan.find_fn(u.module_src, hname)
+    pre = u.module_src[it.start:it.sig_start]
+    return 'kani::stub(' in pre
 
 
 CHECK_RE = re.compile(r'Check \d+: (?P<name>\S+)\n\s+- Status: (?P<status>\w+)\n\s+- Description: "(?P<desc>(?:[^"\\]|\\.|"(?!\n))*)"\n(?:\s+- Location: (?P<loc>[^\n]*)\n)?')
@@ -201,9 +225,9 @@ class KaniRun:
             errs = '\n'.join(m.group(0) for m in re.finditer(r'(?m)^error.*(?:\n(?!warning|error).*){0,12}', out))[:6000]
             raise Undecided(f'kani build of the injected crate failed ({reason or rc}):\n{errs}')
 
-    def run_harness(self, u, hname, playback=False, timeout=None, solver_override=None):
+    def run_harness(self, u, hname, playback=False, timeout=None, solver_override=None, twin=False):
         h = u.harness[hname]
-        cmd = ['cargo', 'kani', '--harness', u.full(hname), '--exact'] + KANI_Z
+        cmd = ['cargo', 'kani', '--harness', u.full(hname) + ('__direct' if twin else ''), '--exact'] + KANI_Z
         tail = []
         solver = solver_override or h.get('solver')
         if solver == 'cvc5':
